@@ -147,16 +147,17 @@ def eval_expr(e, env) -> tuple:
             raise NotUnderstood(f"undecidable operand {unparse(e.operand)}")
         return ('const', not t)
     if isinstance(e, ast.BoolOp):
-        vals = [eval_expr(x, env) for x in e.values]
-        for v in vals:
+        v = ('const', None)
+        for x in e.values:            # short-circuit, left to right
+            v = eval_expr(x, env)
             t = _truth(v)
             if t is None:
-                raise NotUnderstood(f"undecidable operand in {unparse(e)}")
+                raise NotUnderstood(f"undecidable test {unparse(x)}")
             if isinstance(e.op, ast.And) and not t:
                 return v
             if isinstance(e.op, ast.Or) and t:
                 return v
-        return vals[-1]
+        return v
     if isinstance(e, ast.Compare) and len(e.ops) == 1:
         a, b = eval_expr(e.left, env), eval_expr(e.comparators[0], env)
         op = e.ops[0]
